@@ -186,8 +186,10 @@ func (e *Engine) nameTable(fn *ssa.Function) map[string][]ssa.Instruction {
 				}
 			case *ssa.Store:
 				add("nil", in)
+				add("frame", in)
 			case *ssa.MapUpdate:
 				add("nilmap", in)
+				add("frame", in)
 			case *ssa.TypeAssert:
 				add("typeassert", in)
 			case *ssa.BinOp:
@@ -197,6 +199,7 @@ func (e *Engine) nameTable(fn *ssa.Function) map[string][]ssa.Instruction {
 			case *ssa.Panic:
 				add("panic", in)
 			case *ssa.Call:
+				add("frame", in)
 				add("det", in)
 				add("pre", in)
 				add("assert", in)
@@ -248,7 +251,7 @@ func (st *State) posOf(in ssa.Instruction) string {
 		return ""
 	}
 	pos := st.ctx.eng.prog.Fset.Position(p)
-	return fmt.Sprintf("%s:%d", strings.TrimPrefix(pos.Filename, "/repo/"), pos.Line)
+	return fmt.Sprintf("%s:%d", strings.TrimPrefix(pos.Filename, repoDir+"/"), pos.Line)
 }
 
 func (st *State) oblige(in ssa.Instruction, kind string, goal Term, desc string) {
@@ -538,7 +541,22 @@ func (st *State) countEvents(name string) Term {
 	return I(int64(n))
 }
 
-func (c *Ctx) eventInLoop(name string) bool { return true }
+func (c *Ctx) eventInLoop(name string) bool {
+	if !strings.HasPrefix(name, "call:") {
+		return true
+	}
+	want := strings.TrimPrefix(name, "call:")
+	for _, li := range c.eng.loopsOf(c.fn) {
+		for b := range li.body {
+			for _, in := range b.Instrs {
+				if ci, ok := in.(ssa.CallInstruction); ok && calleeName(ci.Common()) == want {
+					return true
+				}
+			}
+		}
+	}
+	return false
+}
 
 // eventsBefore: every occurrence of b is preceded by an occurrence of a.
 func (st *State) eventsBefore(a, b string) bool {
@@ -767,7 +785,7 @@ func (st *State) evalClause(env *SpecEnv, cl Clause) (t Term, err error) {
 }
 
 func shortFile(f string) string {
-	f = strings.TrimPrefix(f, "/repo/")
+	f = strings.TrimPrefix(f, repoDir+"/")
 	f = strings.TrimPrefix(f, "/verif/")
 	return f
 }
@@ -800,6 +818,7 @@ func (e *Engine) enterLoop(st *State, li *loopInfo, from *ssa.BasicBlock, k cont
 	}
 	// 2. havoc: cells stored in the loop, and heap components written by one dry run of the body
 	keys := e.dryRun(st, li)
+	st.bumpFrontier()
 	for _, a := range li.allocs {
 		pv, ok := st.fr.regs[a]
 		if !ok || pv.P == nil || pv.P.Kind != pkCell {
@@ -810,6 +829,7 @@ func (e *Engine) enterLoop(st *State, li *loopInfo, from *ssa.BasicBlock, k cont
 			continue
 		}
 		hv := st.freshVal(cell.T, st.ctx.freshName("hv!"+a.Comment))
+		st.boundRefs(hv)
 		copy(cell.L, hv.L)
 		cell.P = nil
 		if a.Comment == "rangeindex" {
